@@ -227,7 +227,8 @@ def run(rep):
                 return (inner_v,) if t == want_scr else None
             key = f'format:{label}'
             try:
-                got = Eval(leaf, lenient=False).ev(fm[2])
+                import engine_skel as _K
+                got = _K.table_ev(ogp, leaf, fm[2])
             except Diverge:
                 rep.bad('C07.B.format-table', key, where, f'a vertex attribute of type {label} makes the generator panic (the property lists it as supported)')
                 continue
